@@ -163,7 +163,7 @@ func (x *Exec) assert(st *State, goal *Term, kind, name string, tags []string, p
 	// assert-then-assume for obligations later statements rely on (call preconditions, safety);
 	// postconditions, invariants and lemma goals are checked independently of each other.
 	switch kind {
-	case "post", "post-exit", "post-return", "inv-step", "inv-init", "lemma", "decreases", "no-abort-call":
+	case "post", "post-exit", "post-return", "inv-step", "inv-init", "lemma", "decreases", "no-abort-call", "frame":
 		return
 	}
 	x.assume(st, goal, "proved:"+name)
